@@ -35,6 +35,7 @@ def main() -> int:
     sys.path.insert(0, repo_src)
     sys.path.insert(0, str(ROOT))
     sys.path.append(str(ROOT / "vendor"))
+    sys.path.append("/verif/vendor")  # snapshots of /verif (vp run) do not contain the vendored packages
     os.environ.setdefault("GEMSEO_VERIF", "1")
     logging.disable(logging.CRITICAL)
     warnings.filterwarnings("ignore")
